@@ -75,6 +75,25 @@ def replace(args):
     return s.replace(nd, rep)
 
 
+def explode(args):
+    """#explode:string|delimiter|position|limit -- the piece at `position` (negative: counted from the end) of
+    the string split at the delimiter; a positive limit smaller than the number of pieces keeps the first
+    limit-1 pieces and makes the rest of the string (delimiters included) the last piece"""
+    s = arg(args, 0, "")
+    d = needle(args, 1)
+    p = to_int(arg(args, 2, ""), 0)
+    lim = to_int(arg(args, 3, ""), 0)
+    pieces = s.split(d)
+    n = len(pieces)
+    m = lim if (lim > 0 and n > lim) else n
+    i = m + p if p < 0 else p
+    if i < 0 or i >= m:
+        return ""
+    if m < n and i == m - 1:
+        return d.join(pieces[m - 1:])
+    return pieces[i]
+
+
 def lc(args):
     return arg(args, 0, "").lower()
 
